@@ -121,6 +121,8 @@ type Result struct {
 
 func (w *World) MsgServer() types.MsgServer { return keeper.NewMsgServerImpl(w.App.AllianceKeeper) }
 
+var errNotApplicable = fmt.Errorf("event not applicable in this state")
+
 func callRecover(f func() error) (err error, panicked bool) {
 	defer func() {
 		if r := recover(); r != nil {
@@ -244,6 +246,10 @@ func (w *World) Exec(ctx sdk.Context, op Op) Result {
 				if err != nil {
 					return err
 				}
+				if val.IsUnbonded() {
+					// x/slashing and x/evidence never slash an unbonded validator (StakingKeeper.Slash refuses it): not an event
+					return errNotApplicable
+				}
 				power := val.ConsensusPower(sdk.DefaultPowerReduction)
 				// replicate x/staking's effective fraction for the oracle
 				amount := sdk.DefaultPowerReduction.MulRaw(power)
@@ -261,6 +267,11 @@ func (w *World) Exec(ctx sdk.Context, op Op) Result {
 			})
 			res.Err, res.Panicked = err, p
 			res.HookErr = w.Log.HookError()
+			if err == errNotApplicable {
+				res.Rejected = true
+				res.Ctx = ctx
+				return res
+			}
 		} else {
 			err, p := callRecover(func() error {
 				return k.StakingHooks().BeforeValidatorSlashed(c, w.Vals[op.V], f)
